@@ -464,6 +464,23 @@ static std::string op_traj(const std::vector<std::string>& w)
         sb_trajectory_stats_calculator_set_components(&calc, SB_TRAJECTORY_STATS_DURATION);
         sb_error_t e3 = sb_trajectory_stats_calculator_run(&calc, &tr, &st);
         sb_trajectory_stats_calculator_destroy(&calc);
+        // the duration must not depend on which other components are computed in the same pass
+        std::string masks = "same";
+        for (int mask = 1; mask < 16 && e3 == SB_SUCCESS; mask += 2) {
+            sb_trajectory_stats_calculator_t c2;
+            SBH_DIRTY(c2);
+            sb_trajectory_stats_t s2;
+            memset(&s2, 0x5A, sizeof s2);
+            sb_trajectory_stats_calculator_init(&c2, 1.0f);
+            c2.min_ascent = 1.0f;
+            sb_trajectory_stats_calculator_set_components(&c2, (sb_trajectory_stat_components_t)mask);
+            sb_error_t e5 = sb_trajectory_stats_calculator_run(&c2, &tr, &s2);
+            sb_trajectory_stats_calculator_destroy(&c2);
+            if (e5 != SB_SUCCESS || s2.duration_msec != st.duration_msec || s2.duration_sec != st.duration_sec) {
+                masks = "diff:" + S(mask) + ":" + code(e5) + ":" + U(s2.duration_msec);
+                break;
+            }
+        }
         int nseg = 0;
         sb_error_t e4 = sb_trajectory_player_init(&pl, &tr);
         if (e4 == SB_SUCCESS) {
@@ -474,7 +491,7 @@ static std::string op_traj(const std::vector<std::string>& w)
             }
             sb_trajectory_player_destroy(&pl);
         }
-        out += " dur=" + U(d1) + "," + fhex(d1s) + "," + code(e2) + "," + U(d2) + "," + code(e3) + "," + U(st.duration_msec) + "," + U(st.duration_sec) + " nseg=" + (e4 == SB_SUCCESS ? S(nseg) : code(e4));
+        out += " dur=" + U(d1) + "," + fhex(d1s) + "," + code(e2) + "," + U(d2) + "," + code(e3) + "," + U(st.duration_msec) + "," + U(st.duration_sec) + "," + masks + " nseg=" + (e4 == SB_SUCCESS ? S(nseg) : code(e4));
     }
     sb_trajectory_player_t hp;
     SBH_DIRTY(hp);
@@ -1015,6 +1032,20 @@ static std::string op_stats(const std::vector<std::string>& w)
         out = "takeoff=" + fhex(t) + " stats=" + code(e2);
         if (e2 == SB_SUCCESS) {
             out += ":" + fhex(st.takeoff_time_sec) + ":" + fhex(st.earliest_above_sec);
+            // the takeoff fields must not depend on which other components are computed in the same pass
+            std::string masks = "same";
+            for (int mask = 4; mask < 16; mask++) {
+                if (!(mask & 4)) continue;
+                sb_trajectory_stats_t s2;
+                memset(&s2, 0x5A, sizeof s2);
+                sb_trajectory_stats_calculator_set_components(&calc, (sb_trajectory_stat_components_t)mask);
+                sb_error_t e5 = sb_trajectory_stats_calculator_run(&calc, &tr, &s2);
+                if (e5 != SB_SUCCESS || memcmp(&s2.takeoff_time_sec, &st.takeoff_time_sec, 4) != 0 || memcmp(&s2.earliest_above_sec, &st.earliest_above_sec, 4) != 0) {
+                    masks = "diff:" + S(mask) + ":" + code(e5) + ":" + fhex(s2.takeoff_time_sec);
+                    break;
+                }
+            }
+            out += " masks=" + masks;
         }
         sb_trajectory_stats_calculator_destroy(&calc);
     } else if (w[1] == "landing") {
@@ -1034,6 +1065,21 @@ static std::string op_stats(const std::vector<std::string>& w)
             out += ":" + fhex(st.landing_time_sec);
         }
         out += " total=" + U(sb_trajectory_get_total_duration_msec(&tr));
+        if (e2 == SB_SUCCESS) {
+            // the landing time must not depend on which other components are computed in the same pass
+            std::string masks = "same";
+            for (int mask = 8; mask < 16; mask++) {
+                sb_trajectory_stats_t s2;
+                memset(&s2, 0x5A, sizeof s2);
+                sb_trajectory_stats_calculator_set_components(&calc, (sb_trajectory_stat_components_t)mask);
+                sb_error_t e5 = sb_trajectory_stats_calculator_run(&calc, &tr, &s2);
+                if (e5 != SB_SUCCESS || memcmp(&s2.landing_time_sec, &st.landing_time_sec, 4) != 0) {
+                    masks = "diff:" + S(mask) + ":" + code(e5) + ":" + fhex(s2.landing_time_sec);
+                    break;
+                }
+            }
+            out += " masks=" + masks;
+        }
         sb_trajectory_stats_calculator_destroy(&calc);
     } else {
         sb_bounding_box_t bb;
